@@ -34,6 +34,29 @@ func init() {
 			c.Undecided("R34l", "isCmdUnsafe:param", fd.Pos(), "isCmdUnsafe has no string parameter")
 			return
 		}
+		// the name: the parameter and every local that is a plain copy of it (`name := f`, defined once)
+		defs := localDefs(info, fd.Body)
+		name := map[types.Object]bool{param: true}
+		isCopy := func(o types.Object, rhs ast.Expr) bool {
+			id, ok := unparen(rhs).(*ast.Ident)
+			return ok && name[info.ObjectOf(id)] && len(defs[o]) == 1 && defs[o][0] == rhs
+		}
+		for grew := true; grew; {
+			grew = false
+			for o, ds := range defs {
+				if !name[o] && len(ds) == 1 && ds[0] != nil && isCopy(o, ds[0]) {
+					name[o], grew = true, true
+				}
+			}
+		}
+		mentionsName := func(e ast.Expr) bool {
+			for o := range name {
+				if mentions(info, e, o) {
+					return true
+				}
+			}
+			return false
+		}
 		bad := ""
 		ast.Inspect(fd.Body, func(nd ast.Node) bool {
 			as, ok := nd.(*ast.AssignStmt)
@@ -46,13 +69,16 @@ func init() {
 					continue
 				}
 				o := info.ObjectOf(id)
-				if o == param {
+				if len(as.Rhs) == len(as.Lhs) && o != param && isCopy(o, as.Rhs[i]) {
+					continue // the one definition of a plain copy
+				}
+				if name[o] {
 					bad = c.src(as)
 					continue
 				}
-				// a string local derived from the parameter
+				// a string local derived from the name
 				if v, ok := o.(*types.Var); ok && len(as.Rhs) == len(as.Lhs) {
-					if b, isB := v.Type().Underlying().(*types.Basic); isB && b.Info()&types.IsString != 0 && mentions(info, as.Rhs[i], param) {
+					if b, isB := v.Type().Underlying().(*types.Basic); isB && b.Info()&types.IsString != 0 && mentionsName(as.Rhs[i]) {
 						bad = c.src(as)
 					}
 				}
